@@ -115,7 +115,7 @@ func vpH_C17_handle() {
 			ctx.cancel()
 		}
 	}
-	s := &Server{loggerProvider: &vpLogger{}}
+	s := NewServer(&vpLogger{}, nil)
 	s.handle(ctx, newCrypter([]byte("k"), conn, false), &vpHandler{w: w, id: 0})
 	vpAssert(conn.closes == 1, "C17.handle.closed-on-exit")
 	vpAssert(conn.readsUnarmed == 0, "C17.handle.deadline-armed-before-every-read")
@@ -285,7 +285,7 @@ func vpH_C17_handle_proxy() {
 	conn.cutStall = true
 	w := newVPWorld(conn)
 	w.mode = vpReplyNoRestart
-	s := &Server{loggerProvider: &vpLogger{}, proxy: true}
+	s := NewServer(&vpLogger{}, nil, SetUseProxy(true))
 	s.handle(newVPCtx(), newCrypter([]byte("k"), conn, true), &vpHandler{w: w, id: 0})
 	vpAssert(conn.closes == 1, "C17.proxy.closed-on-exit")
 	vpAssert(conn.readsUnarmed == 0, "C17.proxy.deadline-armed-before-every-read")
